@@ -1,0 +1,41 @@
+//go:build !verif
+
+package http2
+
+// Verification hooks (see /verif/DESIGN.md section 4.1) are compiled out
+// without the "verif" build tag: verifOn is a false constant, so every
+// `if verifOn { ... }` call site is dead code.
+const verifOn = false
+
+type verifSrvHook struct{}
+type verifCliHook struct{}
+
+const (
+	vpFrameHeader = iota
+	vpFrame
+	vpHeaderField
+	vpStream
+	vpReqCtx
+	vpHPACK
+	vpCliCtx
+)
+
+func vPoolGet(int, any)                      {}
+func vPoolPut(int, any)                      {}
+func vSrvInit(*serverConn)                   {}
+func vServeRet(*serverConn)                  {}
+func vRLFwd(*serverConn, *FrameHeader)       {}
+func vRLExit(*serverConn)                    {}
+func vSLIdle(*serverConn, Streams, int, int) {}
+func vSLWake(*serverConn, int)               {}
+func vSLExit(*serverConn)                    {}
+func vDispatch(*serverConn, *Stream)         {}
+func vWQ(*serverConn)                        {}
+func vWDrop(*serverConn)                     {}
+func vWWritten(*serverConn)                  {}
+func vWLExit(*serverConn)                    {}
+func vAccess(any, string, string)            {}
+func vCliInit(*Conn)                         {}
+func vCliEv(*Conn, string, uint32, int64)    {}
+func vCliGate(*Conn, string, uint32)         {}
+func vCtxResolve(*Ctx, error, bool)          {}
